@@ -45,7 +45,7 @@ import initialization.preseed as PS  # noqa: E402
 from virtual_world.infrastructure import Infrastructure  # noqa: E402
 from simulation.simulation_manager import SimulationManager  # noqa: E402
 
-from harness.adapters.cache_extract import period_of  # noqa: E402
+from harness.adapters.cache_extract import period_of, PERIODS  # noqa: E402
 
 INPUTS = ["site", "siteType", "equip", "source", "emisRate", "repairDelay", "vw", "prog"]
 FILE_INPUTS = {"site": "site.csv", "siteType": "site_type.csv", "equip": "equipment.csv",
@@ -55,10 +55,18 @@ GEN_FILES = {"seeds": Generator_Files.EMISSION_PRESEED_FILE, "hashes": Generator
              "ts": Generator_Files.PRESEED_FILE}
 NP_SEED = 20240917
 MAX_VERSION = {inp: 7 for inp in INPUTS}
-MAX_VERSION["vw"] = 11          # 3 periods x 4 repair costs
+MAX_VERSION["vw"] = 4 * len(PERIODS) - 1          # v // 4 selects the period
 BASE_DAY = date(2021, 1, 1)
-SRC_INPUT_DIR = os.path.join(shim.REPO_SIM, "inputs", "granular_infrastructure")
-SRC_PARAM_DIR = os.path.join(shim.REPO_SIM, "simulations", "granular_infrastructure")
+# two configuration shapes: all six input files configured / only the sites and the emission-rate file
+# (site-type, equipment, sources and repair-delay file names are None: the `... is not None else None`
+# branches of the hashing code); the coarse shape also uses file names that are prefixes of each other
+SHAPES = {
+    "granular": {"files": FILE_INPUTS, "inputs": os.path.join(shim.REPO_SIM, "inputs", "granular_infrastructure"),
+                 "params": os.path.join(shim.REPO_SIM, "simulations", "granular_infrastructure")},
+    "coarse": {"files": {"site": "s.csv", "emisRate": "s.csv.e.csv"},
+               "inputs": os.path.join(shim.REPO_SIM, "inputs", "simple_test_case_1"),
+               "params": os.path.join(shim.REPO_SIM, "simulations", "simple_test_case1")},
+}
 
 
 class Crash(BaseException):
@@ -72,7 +80,9 @@ _SITE_TYPE_EQUIP = ["equip1;", "equip1;equip2;", "equip2;", "equip2;equip3;", "e
                     "equip3;equip1;equip2;", "equip2;equip1;"]
 
 
-def file_content(inp, v):
+def file_content(inp, v, shape="granular"):
+    if inp == "site" and shape == "coarse":
+        return f"site_ID,equipment,lat,lon,site_type\n{1 + 10 * v},1,32.367,-101.8009,999\n"
     if inp == "site":
         return ("site_ID,lat,lon,site_type\n"
                 f"{1 + 10 * v},55.05,-119.99,site_type1\n")
@@ -92,26 +102,30 @@ def file_content(inp, v):
     raise KeyError(inp)
 
 
-_BASE = None
+_BASE = {}
 
 
-def base_params():
+def base_params(shape="granular"):
     """virtual-world / program dictionaries as the real InputManager produces them from the
-    repository's granular_infrastructure simulation, shortened to a 25-day period, one site, and pointed at a
-    repair-delay file"""
-    global _BASE
-    if _BASE is None:
-        files = sorted(Path(SRC_PARAM_DIR).iterdir())
+    repository's granular_infrastructure (or simple_test_case1) simulation, reduced to one site and, in
+    the granular shape, pointed at a repair-delay file; the period is set by dict_version"""
+    if shape not in _BASE:
+        files = sorted(Path(SHAPES[shape]["params"]).iterdir())
         with contextlib.redirect_stdout(io.StringIO()):
             params = InputManager().read_and_validate_parameters(files)
         programs = params.pop(pc.Levels.PROGRAM)
         vw = params.pop(pc.Levels.VIRTUAL)
         vw[pc.Virtual_World_Params.N_SITES] = 1
-        vw[pc.Virtual_World_Params.REPAIR][pc.Virtual_World_Params.REPAIR_DELAY][pc.Common_Params.FILE] = \
-            FILE_INPUTS["repairDelay"]
-        vw[pc.Virtual_World_Params.REPAIR][pc.Virtual_World_Params.REPAIR_DELAY][pc.Common_Params.VAL] = "d"
-        _BASE = (vw, programs)
-    return copy.deepcopy(_BASE[0]), copy.deepcopy(_BASE[1])
+        V = pc.Virtual_World_Params
+        if shape == "granular":
+            vw[V.REPAIR][V.REPAIR_DELAY][pc.Common_Params.FILE] = FILE_INPUTS["repairDelay"]
+            vw[V.REPAIR][V.REPAIR_DELAY][pc.Common_Params.VAL] = "d"
+        else:
+            vw[V.INFRA][V.SITE] = SHAPES[shape]["files"]["site"]
+            vw[V.EMIS][V.EMIS_FILE] = SHAPES[shape]["files"]["emisRate"]
+            vw[V.EMIS][V.REPAIRABLE][V.PR] = 0.25
+        _BASE[shape] = (vw, programs)
+    return copy.deepcopy(_BASE[shape][0]), copy.deepcopy(_BASE[shape][1])
 
 
 def dict_version(vw, programs, inp, v):
@@ -138,23 +152,29 @@ def methods_of(programs):
 class Inputs:
     """an input folder + parameter dictionaries at a version vector"""
 
-    def __init__(self, root):
+    def __init__(self, root, shape="granular"):
+        self.shape = shape
+        self.files = SHAPES[shape]["files"]
         self.in_dir = Path(root)
         if self.in_dir.exists():
             shutil.rmtree(self.in_dir)
-        shutil.copytree(SRC_INPUT_DIR, self.in_dir)
-        self.vw, self.programs = base_params()
-        self.vv = [None] * len(INPUTS)
+        shutil.copytree(SHAPES[shape]["inputs"], self.in_dir)
+        self.vw, self.programs = base_params(shape)
+        self.vv = [0] * len(INPUTS)          # inputs that do not exist in this shape stay at 0
         for i in range(len(INPUTS)):
-            self.set(i, 0)
+            if self.has(i):
+                self.set(i, 0)
+
+    def has(self, k):
+        return INPUTS[k] in self.files or INPUTS[k] in ("vw", "prog")
 
     def set(self, k, v):
         inp = INPUTS[k]
-        if not 0 <= v <= MAX_VERSION[inp]:
-            raise ValueError("version out of range")
-        if inp in FILE_INPUTS:
-            with open(self.in_dir / FILE_INPUTS[inp], "w") as fh:
-                fh.write(file_content(inp, v))
+        if not 0 <= v <= MAX_VERSION[inp] or not self.has(k):
+            raise ValueError("version out of range / input not in this shape")
+        if inp in self.files:
+            with open(self.in_dir / self.files[inp], "w") as fh:
+                fh.write(file_content(inp, v, self.shape))
         else:
             dict_version(self.vw, self.programs, inp, v)
         self.vv[k] = v
@@ -235,8 +255,9 @@ class Ref:
     any pickling: infrastructure = Infrastructure(...) under seed s0; scenario i = that fresh
     infrastructure's generate_emissions(sim_number=i) under seed si"""
 
-    def __init__(self, root):
-        self.inputs = Inputs(os.path.join(root, "ref_in"))
+    def __init__(self, root, shape="granular"):
+        self.inputs = Inputs(os.path.join(root, "ref_in"), shape)
+        self.roundtrip_differs = []   # (vv, s0) whose fresh infrastructure != its pickle round trip
         self._infra = {}     # (vv, s0) -> digest
         self._emis = {}      # (vv, s0, si, i) -> digest
         self.generated = 0
@@ -251,6 +272,9 @@ class Ref:
         key = (tuple(vv), s0)
         if key not in self._infra:
             self._infra[key] = infra_digest(inf)
+            # pickling round trip of what is stored in the folder: nothing but the declared transients lost
+            if digest(inf, INFRA_TRANSIENT) != self._infra[key]:
+                self.roundtrip_differs.append((tuple(vv), s0))
         return inf
 
     def infra_digest(self, vv, s0):
@@ -417,7 +441,7 @@ def _load(path):
 class World:
     def __init__(self, root, ref):
         self.root = root
-        self.inputs = Inputs(os.path.join(root, "in"))
+        self.inputs = Inputs(os.path.join(root, "in"), ref.inputs.shape)
         self.gen = self.inputs.in_dir / Generator_Files.GENERATOR_FOLDER
         self.ref = ref
         self.gid = 0
@@ -429,21 +453,27 @@ class World:
 
     # -- snapshots (prefix sharing) ---------------------------------------------------------------
     def snapshot(self, dst):
+        """the generator folder is copied; input files are a function of the version vector"""
         if os.path.exists(dst):
             shutil.rmtree(dst)
-        shutil.copytree(self.inputs.in_dir, dst)
-        return {"dir": dst, "vv": list(self.inputs.vv), "gid": self.gid, "meta": dict(self.meta),
+        has_gen = os.path.isdir(self.gen)
+        if has_gen:
+            shutil.copytree(self.gen, dst)
+        return {"dir": dst, "has_gen": has_gen, "vv": list(self.inputs.vv), "gid": self.gid, "meta": dict(self.meta),
                 "visited": set(self.visited), "seed_at": {k: set(v) for k, v in self.seed_at.items()}}
 
     def restore(self, snap):
-        if os.path.exists(self.inputs.in_dir):
-            shutil.rmtree(self.inputs.in_dir)
-        shutil.copytree(snap["dir"], self.inputs.in_dir)
-        self.inputs.vw, self.inputs.programs = base_params()
-        self.inputs.vv = list(snap["vv"])
-        for k, v in enumerate(self.inputs.vv):
-            if INPUTS[k] not in FILE_INPUTS:
+        if os.path.isdir(self.gen):
+            shutil.rmtree(self.gen)
+        if snap["has_gen"]:
+            shutil.copytree(snap["dir"], self.gen)
+        self.inputs.vw, self.inputs.programs = base_params(self.inputs.shape)
+        for k, v in enumerate(snap["vv"]):
+            if INPUTS[k] in ("vw", "prog"):
                 dict_version(self.inputs.vw, self.inputs.programs, INPUTS[k], v)
+                self.inputs.vv[k] = v
+            elif self.inputs.has(k) and self.inputs.vv[k] != v:
+                self.inputs.set(k, v)
         self.gid = snap["gid"]
         self.meta = dict(snap["meta"])
         self.visited = set(snap["visited"])
@@ -495,6 +525,8 @@ class World:
         the arguments (simulation_manager.py); otherwise the three functions are called directly."""
         my_gid = self.gid
         self.gid += 1
+        dicts_before = copy.deepcopy((self.inputs.vw, self.inputs.programs))
+        folder_before = self.folder_state()
         INSTR.reset(crash_at, tear)
         INSTR.active = True
         np.random.seed(NP_SEED)
@@ -539,8 +571,23 @@ class World:
         if outcome == "done" and series is not None:
             d0, d1 = inp.start, inp.end
             covers = all((d0 + timedelta(days=j)) in series for j in range((d1 - d0).days + 1))
+        folder_after = self.folder_state()
+        changed = sorted(f for f in set(folder_before) | set(folder_after) if folder_before.get(f) != folder_after.get(f))
         return {"outcome": outcome, "effects": list(INSTR.effects), "mem": mem, "error": err, "infra_obj": infra,
-                "n": n, "series_covers_period": covers, "via_manager": via_manager}
+                "n": n, "series_covers_period": covers, "via_manager": via_manager,
+                # observed independently of the instrumentation: which files of the generator folder differ
+                # (size / mtime / bytes), and whether the run changed the parameter dictionaries it was handed
+                "changed_files": changed,
+                "dicts_mutated": (self.inputs.vw, self.inputs.programs) != dicts_before}
+
+    def folder_state(self):
+        out = {}
+        if os.path.isdir(self.gen):
+            for name in os.listdir(self.gen):
+                pth = self.gen / name
+                st = os.stat(pth)
+                out[file_id(pth) or name] = (st.st_size, st.st_mtime_ns, st.st_ino)
+        return out
 
     def _note_seeds(self):
         st, sd = _load(self.gen / GEN_FILES["seeds"])
@@ -583,12 +630,14 @@ class World:
         hash_file / hash_dict: what is checked is the cache logic, not md5)"""
         if self.hash_rev is None:
             rev = {}
-            tmp = Inputs(os.path.join(self.root, "hash_in"))
+            tmp = Inputs(os.path.join(self.root, "hash_in"), self.inputs.shape)
             for k, inp in enumerate(INPUTS):
+                if not tmp.has(k):
+                    continue
                 for v in range(MAX_VERSION[inp] + 1):
                     tmp.set(k, v)
-                    if inp in FILE_INPUTS:
-                        h = II.hash_file(tmp.in_dir / FILE_INPUTS[inp])
+                    if inp in tmp.files:
+                        h = II.hash_file(tmp.in_dir / tmp.files[inp])
                     elif inp == "vw":
                         h = II.hash_dict(tmp.vw)
                     else:
@@ -615,8 +664,9 @@ class World:
             dec = {}
             for key, h in obj.items():
                 vs = rev.get(h, set())
-                dec[str(key)] = str(sorted(vs)[0]) if len(vs) == 1 else ("none" if h is None else "?")
+                dec[str(key)] = str(sorted(vs)[0]) if len(vs) == 1 else ("0" if h is None else "?")
             out["hashes"] = dec
+            out["hash_none"] = sum(1 for h in obj.values() if h is None)   # file inputs not configured in this shape
         st, dg = self._digest_file(self.gen / GEN_FILES["infra"], "infra")
         if st != "ok":
             out["infra"] = {"absent": "-", "torn": "T"}[st]
@@ -637,11 +687,12 @@ class World:
         out["emis"] = em
         return out
 
-    def loaded_scenario(self, infra, i):
+    def loaded_scenario(self, infra, i, same_object=None):
         """what simulation i of the run that holds `infra` would load: the REAL read_in_emissions is
-        called (on a copy of the infrastructure); returns ('ok', digest) or ('error', text)"""
+        called (on a copy of the infrastructure, or on `same_object`: the manager hands ONE infrastructure
+        object to read_in_emissions for all simulations in turn); returns ('ok', digest) or ('error', text)"""
         try:
-            inf = pickle.loads(pickle.dumps(infra))
+            inf = same_object if same_object is not None else pickle.loads(pickle.dumps(infra))
             IE.read_in_emissions(inf, self.gen, i)
         except Exception as e:
             return "error", f"{type(e).__name__}: {e}"[:160]
